@@ -441,7 +441,7 @@ class Interp(object):
         if isinstance(v, SSeq):
             return v.t
         if isinstance(v, (bytes, bytearray)):
-            return self.const_seq(list(v))
+            return self.const_seq(list(bytes(v)))      # bytes(): subclasses may override __iter__
         if isinstance(v, str):
             return self.const_seq([ord(c) for c in v])
         if isinstance(v, Ref):
@@ -1527,6 +1527,8 @@ class Interp(object):
                 return True
             other = b if a is None else a
             if isinstance(other, Opaque):
+                if other.pytype in (str, bytes, list):
+                    return False        # a formatted string / produced list is never None
                 raise OutOfReach('is None on opaque')
             return False
         if isinstance(a, type) or isinstance(b, type):
